@@ -1,6 +1,8 @@
 package main
 
 import (
+	"fmt"
+	"os"
 	"strings"
 
 	"golang.org/x/tools/go/ssa"
@@ -119,6 +121,9 @@ func (p *Program) mayBeEOFAt(tb *TB, v ssa.Value, facts []Atom, depth int) bool 
 		_, excluded := findFact(facts, func(a Atom) bool {
 			return a.Kind == "cmp" && a.Op == "!=" && ((a.X.String() == ts && short(a.Y.String()) == "io.EOF") || (a.Y.String() == ts && short(a.X.String()) == "io.EOF"))
 		})
+		if os.Getenv("AGECHECK_DEBUG_EOF") != "" {
+			fmt.Fprintf(os.Stderr, "mayBeEOFAt %s excluded=%v facts=%s\n", ts, excluded, factStrings(facts))
+		}
 		return !excluded
 	}
 	return strings.TrimSpace(short(tb.Term(v).String())) == "io.EOF"
@@ -140,4 +145,31 @@ func isSourceReadError(v ssa.Value) bool {
 		return true
 	}
 	return false
+}
+
+// eofOnlyBehind: every leaf of v (through merges) that may be io.EOF is reached under a fact
+// satisfying need.
+func (p *Program) eofOnlyBehind(tb *TB, v ssa.Value, facts []Atom, need func(Atom) bool, depth int) bool {
+	if ph, ok := v.(*ssa.Phi); ok && depth <= 4 {
+		for i, e := range ph.Edges {
+			pr := ph.Block().Preds[i]
+			ef := tb.FactsAt(pr)
+			for k, sc := range pr.Succs {
+				if sc == ph.Block() {
+					if _, isIf := pr.Instrs[len(pr.Instrs)-1].(*ssa.If); isIf {
+						ef = tb.FactsOnEdge(pr, k)
+					}
+				}
+			}
+			if !p.eofOnlyBehind(tb, e, append(append([]Atom{}, facts...), ef...), need, depth+1) {
+				return false
+			}
+		}
+		return true
+	}
+	if !p.mayBeEOFAt(tb, v, facts, depth) {
+		return true
+	}
+	_, ok := findFact(facts, need)
+	return ok
 }
